@@ -298,6 +298,11 @@ async fn scatter_sql_over_table(
             elapsed_ms: started.elapsed().as_secs_f64() * 1000.0,
             local: true,
         });
+        // An empty answer still carries its schema (decode_ipc does the same
+        // for a remote shard), or merge() has nothing to take it from.
+        if r.batches.is_empty() {
+            batches.push(RecordBatch::new_empty(r.schema.clone()));
+        }
         batches.extend(r.batches);
         return Ok((batches, contributions));
     }
@@ -356,6 +361,11 @@ async fn scatter_sql_over_table(
             elapsed_ms: elapsed.as_secs_f64() * 1000.0,
             local: true,
         });
+        // The initiator's own shard is not serialized, so it does not get the
+        // schema-only placeholder decode_ipc gives an empty remote answer.
+        if r.batches.is_empty() {
+            batches.push(RecordBatch::new_empty(r.schema.clone()));
+        }
         batches.extend(r.batches);
     }
 
